@@ -1,5 +1,5 @@
 SPECIFICATION Spec
 CONSTANTS
   EPs = {"execv2", "execv1", "execmutate", "execdoc", "execservice", "graffiti", "builderbid", "proposalbest", "proposer", "attester", "aggregator", "syncmessenger", "syncaggregator", "mergeduties", "cacheevents", "submitclassify"}
-INVARIANTS TypeOK KeepsRunning EndsProperly UsedOnlyIfDecoded AuxFaultsSurvived Total
+INVARIANTS TypeOK KeepsRunning EndsProperly UsedOnlyIfDecoded AuxFaultsSurvived PollSequencesSurvived Total
 CHECK_DEADLOCK FALSE
